@@ -46,7 +46,7 @@ pub mod p_sym {
     }
 }
 
-// @ob id=predictor_sizing known="cols: i64, colors: i64, bpc: i64" unwind=8 unwindset="key_id.0:24,key_id.1:36,apply_png_predictor_advanced.0:3" stubs=fmt,vec,params:p_sym tier=quick timeout=900 mem=16 bound="apply_predictor with EVERY u32 predictor value and /Columns, /Colors, /BitsPerComponent each any i64 or absent; data of 0..=1 arbitrary bytes (row-size arithmetic, modulo, row count)"
+// @ob id=predictor_sizing known="cols: i64, colors: i64, bpc: i64" unwind=8 unwindset="key_id.0:24,key_id.1:36,apply_png_predictor_advanced.0:3" stubs=fmt,vec,params:p_sym tier=quick timeout=900 mem=28 bound="apply_predictor with EVERY u32 predictor value and /Columns, /Colors, /BitsPerComponent each any i64 or absent; data of 0..=1 arbitrary bytes (row-size arithmetic, modulo, row count)"
 fn predictor_sizing<const KF: usize>() {
     p_sym::randomize();
     let (cols, colors, bpc) = unsafe { (p_sym::V[1], p_sym::V[2], p_sym::V[3]) };
@@ -67,7 +67,7 @@ fn predictor_sizing<const KF: usize>() {
     kani::cover!(true, "end reached");
 }
 
-// @ob id=a85_nopanic unwind=9 stubs=fmt,vec tier=quick timeout=1500 mem=20 bound="ASCII85: every five-digit group ('!'..='u' each, incl. values above 2^32-1) + '~>', unbounded decode"
+// @ob id=a85_nopanic unwind=9 stubs=fmt,vec tier=quick timeout=1500 mem=28 bound="ASCII85: every five-digit group ('!'..='u' each, incl. values above 2^32-1) + '~>', unbounded decode"
 fn a85_nopanic<const KF: usize>() {
     let d: [u8; 5] = kani::any();
     let mut i = 0;
@@ -83,7 +83,7 @@ fn a85_nopanic<const KF: usize>() {
     kani::cover!(true, "end reached");
 }
 
-// @ob id=hex_rle_nopanic unwind=8 stubs=fmt,vec tier=quick timeout=1500 mem=20 bound="ASCIIHex and RunLength: every 3-byte input (RunLength runs up to 4 bytes), any limit: value or error, output length <= 128 x input length"
+// @ob id=hex_rle_nopanic unwind=8 stubs=fmt,vec tier=quick timeout=1500 mem=24 bound="ASCIIHex and RunLength: every 3-byte input (RunLength runs up to 4 bytes), any limit: value or error, output length <= 128 x input length"
 fn hex_rle_nopanic<const KF: usize>() {
     let buf: [u8; 3] = kani::any();
     let max: usize = kani::any();
@@ -126,17 +126,3 @@ fn lzw_bitreader<const KF: usize>() {
     kani::cover!(true, "end reached");
 }
 
-// @ob id=lzw_two_codes known="ec: i64" unwind=260 unwindset="decode_lzw_with_limit.1:4,read_bits.0:4,key_id.0:24,key_id.1:36" stubs=fmt,params:p_sym tier=thorough timeout=3000 mem=30 bound="LZWDecode: every 3-byte input (two 9-bit codes), /EarlyChange any i64 or absent, any limit: value or error"
-fn lzw_two_codes<const KF: usize>() {
-    p_sym::randomize();
-    kani::assume(known::lzw_two_codes::<KF>(unsafe { p_sym::V[5] }));
-    let buf: [u8; 3] = kani::any();
-    let max: usize = kani::any();
-    let d = p_sym::dict();
-    let r = decode_lzw_with_limit(&buf, Some(&d), max);
-    if let Ok(v) = &r { assert!(v.len() <= max || max == 0 || v.len() <= 4, "LZW output exceeds the limit"); }
-    kani::cover!(r.is_ok(), "decoded");
-    std::mem::forget(r);
-    std::mem::forget(d);
-    kani::cover!(true, "end reached");
-}
